@@ -19,7 +19,7 @@ FIX = hist.FIX
 CAP = 150
 
 HEALTHY = ["a1.out", "twocus", "nullptr.o", "typedef.o", "enum.o", "y.o", "empty", "dwz-partial2-1",
-           "bitcount.o", "haschildren_childless"]
+           "bitcount.o", "haschildren_childless", "k1.o"]
 SICK = [("errno", errno.ENOENT), ("errno", errno.EACCES), ("errno", errno.EMFILE), ("errno", errno.EISDIR),
         ("backing", "text.txt"), ("backing", "empty"), ("backing", "trunc.elf"), ("backing", "adir"),
         ("backing", "garbage.bin"), ("hdr-eio", None)]
